@@ -665,3 +665,42 @@ def func_truth_formula(func, env):
         cs.append(cond_tt(ret, env))
         terms.append(('and', cs))
     return ('or', terms)
+
+
+def assign_trace(func, env, names=None):
+    """Assignments (incl. augmented) per variable in source order: name -> [(op, normal form)].
+    Targets: plain names, self attributes (key 'self.x') and string-subscript stores (key "x['k']")."""
+    out = {}
+    nodes = [n for n in walk_no_nested(func) if isinstance(n, (ast.Assign, ast.AugAssign, ast.AnnAssign))]
+    nodes.sort(key=lambda n: (n.lineno, n.col_offset))
+    for n in nodes:
+        if isinstance(n, ast.Assign):
+            targets, op, val = n.targets, '=', n.value
+        elif isinstance(n, ast.AnnAssign):
+            if n.value is None:
+                continue
+            targets, op, val = [n.target], '=', n.value
+        else:
+            targets, val = [n.target], n.value
+            op = {ast.Add: '+=', ast.Sub: '-=', ast.Mult: '*=', ast.FloorDiv: '//=', ast.BitOr: '|=', ast.BitAnd: '&=',
+                  ast.LShift: '<<=', ast.RShift: '>>=', ast.BitXor: '^=', ast.Mod: '%='}.get(type(n.op), '?=')
+        for t in targets:
+            key = _target_key(t)
+            if key is None or (names is not None and key not in names):
+                continue
+            out.setdefault(key, []).append((op, nfs(val, env)))
+    return out
+
+
+def _target_key(t):
+    if isinstance(t, ast.Name):
+        return t.id
+    if isinstance(t, ast.Attribute) and isinstance(t.value, ast.Name) and t.value.id == 'self':
+        return 'self.' + t.attr
+    if isinstance(t, ast.Subscript) and isinstance(t.slice, ast.Constant) and isinstance(t.slice.value, str):
+        base = t.value
+        b = base.id if isinstance(base, ast.Name) else (base.attr if isinstance(base, ast.Attribute) else '?')
+        return "%s[%s]" % (b, t.slice.value)
+    if isinstance(t, ast.Attribute) and isinstance(t.value, ast.Name):
+        return '%s.%s' % (t.value.id, t.attr)
+    return None
